@@ -26,6 +26,60 @@ TB = ('Trusted: Lean 4.33 kernel; axioms propext/Classical.choice/Quot.sound onl
       'no sorry, no own axioms); the translator and the correspondence harness; the shims for datedelta/grapheme/ruamel; '
       'CPython/regex behaviour. ')
 
+check('C03', 'proof',
+      'Lean model of Python `decimal` under a context (precision p, half-even), `_get_digital_value`, sign handling and '
+      '`CultureInfo.format`, with the ten cultures\' parser configurations regenerated from the working tree each run. Proved: '
+      'digital_exact / digital_exact_neg (a run of <= 15 ASCII digits, with or without sign, resolves exactly, for every '
+      'separator configuration), separators_distinct, comma_dot_cultures, digital_round16; number_literal / percent_literal / '
+      'format_canonical by kernel evaluation of 8 literal shapes per regenerated culture. The general grouped/decimal case is '
+      'NOT a theorem: it is carried by unit correspondence (~130k decimal / parser / format operations per run against '
+      'CPython and the parser) and the pipeline oracle (literal shape x boundary magnitude x culture through '
+      'recognize_number / recognize_percentage, value, decimal mark and absence of grouping compared).',
+      TB + 'Extractor regexes and the percentage position map are monitored only. 8 recorded findings (CJK grouped percentages).',
+      'Lean 4 proof + regenerated configurations + unit and pipeline correspondence',
+      'DESIGN.md §3 C03')
+
+check('C04', 'proof',
+      'english_cardinal / english_ordinal: getIntValue en (spell n v) = n and the ordinal analogue for ALL n < 10^15 and all 8 '
+      'spelling variants (with/without "and", hyphenated or spaced tens), by induction over the group structure through the '
+      'round-number step lemma, with the finite word facts evaluated by the kernel on the regenerated English maps '
+      '(spell_words_in_maps: a changed map entry breaks an obligation). The Lean `spell` function is the generator the harness '
+      'uses. Other cultures (es, fr, pt, de, it, nl, zh, ja): no theorem; their regenerated maps instantiate the shared '
+      'algorithm, tied by unit correspondence (~60k operations) and the pipeline oracle with hand-written numeral generators.',
+      TB + 'Tokenisation by text_number_regex is tied by a tokenisation correspondence, extraction regexes by the pipeline only. '
+      '15 recorded findings (regex / resource data of fr, it, pt, ja and English ordinals).',
+      'Lean 4 proof by induction over the numeral group structure + regenerated maps + unit/pipeline correspondence',
+      'DESIGN.md §3 C04')
+
+check('C08', 'proof',
+      'Lean theorems for EVERY reference datetime (valid date 0001..9999, no other bound) and every N about a '
+      'function-by-function model of DateUtils.this/next/last, AgoLaterUtil.get_date_result, parse_implicit_date (special days, '
+      'next/this/last weekday) and _parse_one_word_period (week/month/year) on top of CPython\'s calendar (_ymd2ord/_ord2ymd '
+      'round trip and a full characterisation of isocalendar are proved): weekday = asked and Monday-of-week shifted by '
+      '0/+7/-7; today/tomorrow/yesterday = R.date+0/+1/-1; N days ago / in N days = R-/+N, N weeks = 7N days; this/next/last '
+      'week = [Monday(R)+7k, +7) with TIMEX = isocalendar of that Monday; year = [Jan 1 y+k, Jan 1 y+k+1); month = [1st of '
+      'shifted month, 1st of next) (month_period_fixed, the repaired code); now = R. Tie: CPython ord2ymd/weekday/isocalendar '
+      'vs model on every ordinal (thorough) / every day 1950..2090 + stride (quick), the datedelta shim, DateUtils on every '
+      'day 1950..2090, the two parser functions called directly, and recognize_datetime on the property\'s expression families '
+      'x boundary-first references with the property computed independently as oracle.',
+      TB + 'datedelta is a shim (documented roll-forward/clamp semantics). Not modelled (pipeline-monitored only): English '
+      'get_swift_*/regexes, extractor/merger plumbing, early/mid/late prefixes, weekend, month/year-to-date.',
+      'Lean 4 proof (omega over ordinals after a proved _ord2ymd round trip) + unit, function-level and pipeline correspondence',
+      'DESIGN.md §3 C08')
+
+check('C09', 'proof',
+      'Lean theorems for every reference about the model of DateUtils.generate_dates and the bare-weekday branch of '
+      'parse_implicit_date: weekday -> future = past+7, past < R.date <= future, stated weekday, midnight, TIMEX XXXX-WXX-d; '
+      'month-day -> consecutive years with past < R.date <= future, proved under the exact guard "reference time of day = '
+      '00:00:00" (negative witness May 10 @ 2020-05-10 14:00 proved; full statement proved for the repaired variant); 29 '
+      'February -> neighbouring leap years with no leap year strictly between, century rules included (guards shown to hold '
+      'throughout 1950..2090). Tie: generate_dates on all 366 (m,d) x boundary days x 3 times of day, bare weekday on every '
+      'day 1950..2090, recognize_datetime on month-day layouts and weekday names with the property computed independently.',
+      TB + 'One recorded finding (monthday-reference-time-of-day: the cross-platform Specs encode that behaviour in 6 cases). '
+      'Order of the two values is monitored, not modelled. English only at pipeline level.',
+      'Lean 4 proof + unit and pipeline correspondence',
+      'DESIGN.md §3 C09')
+
 check('C13', 'proof',
       'The IPv4 / IPv6 / GUID patterns are re-translated from the working tree\'s resource files into Lean regex ASTs on every '
       'run (translator validated by a regex correspondence against the real `regex` module on ~12k (pattern, string) pairs) '
@@ -47,8 +101,9 @@ check('C14', 'proof',
       'parse_format_fields (parse∘format∘parse = parse), format_idempotent, canonical_fixed; from_date / from_date_time / '
       'from_time produce the canonical ISO rendering for every valid date 0001..9999 and every time; the pattern texts, '
       'TimexCreator constants and DAYS the proofs were written for are re-read from the tree each run (genCfg_ok). '
-      'Durations (beyond the integral format side) and date+time combinations are covered by unit correspondence '
-      '(~18k parse cases + 10k from_* cases per quick run) and property oracles only — stated, not proved.',
+      'Also proved: date+time and date+part-of-day combinations (format_parse_DT, parse_norm_DT) and integer durations for all '
+      'seven units (parse_dur, format_dur, duration_int_roundtrip). Fractional duration amounts are NOT proved in general '
+      '(decided instances, correspondence ~18k parse + 10k from_* cases per quick run, property oracles).',
       TB + 'CPython Decimal printing is modelled (incl. scientific form). One recorded finding: tiny-amount-scientific.',
       'Lean 4 proof about a faithful model + unit correspondence against the working tree\'s package',
       'DESIGN.md §3 C14')
